@@ -30,7 +30,7 @@ def load_known_findings(pid):
     return out
 
 
-def extract_counterexample(scratch, h, features=()):
+def extract_counterexample(scratch, h, features=(), what=""):
     """Re-run the single failing harness with concrete playback and return the flattened
     bytes of all nondeterministic values in order of creation."""
     cmd = ["cargo", "kani", "-Z", "stubbing", "-Z", "unstable-options", "-Z", "concrete-playback",
@@ -44,8 +44,29 @@ def extract_counterexample(scratch, h, features=()):
     p = subprocess.run(["bash", "-c", "exec timeout 2400 " + " ".join(C._q(c) for c in cmd)],
                        cwd=scratch, env=env, stdout=subprocess.PIPE, stderr=subprocess.STDOUT, text=True)
     txt = p.stdout
-    # first generated test only
-    m = re.search(r"let concrete_vals: Vec<Vec<u8>> = vec!\[(.*?)\];\s*kani::concrete_playback_run", txt, re.S)
+    # Kani prints one generated test per check (failed assertions AND satisfied covers), each
+    # announced by a doc comment "Check for `<kind>`: "<description>"": pick the one that
+    # belongs to the failing check
+    blocks = txt.split("Concrete playback unit test for")[1:]
+    chosen = None
+    fallback = None
+    for b in blocks:
+        km = re.search(r"Check for `(\w+)`: (.*)", b)
+        kind = km.group(1) if km else ""
+        desc = km.group(2) if km else ""
+        if kind == "cover" or "COVER:" in desc:
+            continue
+        if fallback is None:
+            fallback = b
+        if what.startswith("panic:"):
+            if "VERIF" not in desc and chosen is None:
+                chosen = b
+        elif ("VERIF:" + what) in desc and chosen is None:
+            chosen = b
+    b = chosen or fallback
+    if b is None:
+        return None, txt[-2000:]
+    m = re.search(r"let concrete_vals: Vec<Vec<u8>> = vec!\[(.*?)\];\s*kani::concrete_playback_run", b, re.S)
     if not m:
         return None, txt[-2000:]
     body = m.group(1)
@@ -100,7 +121,7 @@ def confirm(pid, h, what, scratches, keep=False, features=()):
     if scratch is None:
         return {"reproduced": False, "detail": "no scratch copy to extract the counterexample from"}
     t0 = time.time()
-    data, err = extract_counterexample(scratch, h, list(h.cfgs) + list(features))
+    data, err = extract_counterexample(scratch, h, list(h.cfgs) + list(features), what)
     if data is None:
         return {"reproduced": False, "detail": "concrete playback produced no values: " + err[-400:]}
     hexs = data.hex()
